@@ -1,6 +1,6 @@
 --------------------------- MODULE MC_Autobin ---------------------------
 (* Design check + enumerator for X03 / Autobin: every input of the small scope, one call -> ret step; the invariant   *)
-(* evaluates the A-layer (for hybrid: with captured reads paired to chromosomes by name, see Autobin.HybridCoded)     *)
+(* evaluates the A-layer (with the findings repaired: byname = fb = TRUE, see Autobin.HybridCoded)         *)
 (* and checks every P-layer clause on it.  The dump of this run is replayed into the real code (direction 1):         *)
 (*   binsize  (bp_per_bin x target limits x antitarget limits) x the whole depth grid, through do_autobin with        *)
 (*            autobin.hybrid wrapped to return the depths                                                           *)
@@ -65,7 +65,7 @@ ALayerRec(r) ==
     CASE r.op = "binsize" -> [r EXCEPT !.out = BsALayerOut(r)]
       [] r.op = "midsize" -> IF Len(r.sizes) = 0 THEN [r EXCEPT !.err = "AssertionError"] ELSE [r EXCEPT !.out = MsCoded(r.sizes)]
       [] r.op = "autobin" ->
-            LET a == AutobinCoded(r, TRUE) IN
+            LET a == AutobinCoded(r, TRUE, TRUE) IN
             IF a.err THEN [r EXCEPT !.err = "error"]
             ELSE [r EXCEPT !.out = [td |-> ObsOfRat(a.td, FALSE),
                                     ts |-> CHOOSE s \in SizesFor(r, a.td, FALSE, r.tmin, r.tmax) : TRUE,
